@@ -119,10 +119,18 @@ Proof.
     rewrite Nat2Z.inj_succ. destruct IH; [left; assumption|right; lia].
 Qed.
 
+Lemma ff_key_shift c pgn src dst tp : forall slots i,
+  ff_key (map (shift_slot c) slots) pgn src dst tp i = ff_key slots pgn src dst tp i.
+Proof.
+  induction slots as [|s rest IH]; intros i; cbn [map ff_key]; [reflexivity|].
+  rewrite shift_slot_free. destruct (shift_slot_fields c s) as (-> & -> & -> & ->). rewrite IH. reflexivity.
+Qed.
+
 Theorem slot_age_shift : slot_age_shift_stmt.
 Proof.
   unfold slot_age_shift_stmt. intros r r' c pgn src dst tp Hs Hn.
-  unfold find_free_slot, nslots, now32. rewrite Hs, Hn, map_length.
+  unfold find_free_slot, nslots, now32. rewrite Hs, Hn, map_length. rewrite ff_key_shift.
+  destruct (ff_key (r_slots r) pgn src dst tp 0 <? Z.of_nat (length (r_slots r))); [reflexivity|].
   replace (u32 (now r + c)) with (u32 (u32 (now r) + c)) by dm.
   rewrite ff_scan_shift.
   pose proof (ff_scan_oldest_range pgn src dst tp (r_slots r) 0 (Z.of_nat (length (r_slots r))) (u32 (now r)) ltac:(lia)) as R.
